@@ -179,11 +179,14 @@ MEDDLY::prepost_set_mtrel<EOP, ATYPE>
 
     //
     // Do we need to recurse by levels and store level info in the CT?
-    // YES, if the set and relation are both fully-reduced.
-    // (If the set is quasi reduced, we will recurse by levels anyway.)
+    // YES, if the relation is fully-reduced.
+    // (If the set is quasi reduced, we will recurse by levels anyway,
+    //  except below its transparent terminal: that one is reached from
+    //  any level, and is a proper value -- distance 0 -- of an
+    //  integer-valued set.)
     // (If the relation is identity-reduced, we can skip levels.)
     //
-    forced_by_levels = arg1->isFullyReduced() && arg2->isFullyReduced();
+    forced_by_levels = arg2F->isFullyReduced();
 
     //
     // Build compute table key and result types.
